@@ -19,10 +19,10 @@ d=/verif/seeded/$name
 mkdir -p $d
 cp /tmp/cur_$c.diff $d/patch.diff
 cp demo_$c.py $d/demo.py
-/venv/bin/python - "$d" "$c" "$change" "$needs" "$s" "$a" "$b" <<'PY'
+/venv/bin/python - "$d" "$c" "$change" "$needs" "$s" "$a" "$b" "${ROUND:-2}" <<'PY'
 import json, sys
-d, c, change, needs, s, a, b = sys.argv[1:]
-json.dump({"property": c, "change": change, "needs_to_manifest": needs, "round": 2,
+d, c, change, needs, s, a, b, rnd = sys.argv[1:]
+json.dump({"property": c, "change": change, "needs_to_manifest": needs, "round": int(rnd),
            "written_by": "independent sub-agent given only the property text, the list of kinds already planted, and a scratch worktree",
            "confirmed": {"repository_test_suite_with_change": s, "demo_exit_with_change": int(a), "demo_exit_without_change": int(b),
                          "commands": ["cd <worktree> && PYTHONPATH=<worktree> /venv/bin/python -m pytest -q -p no:cacheprovider -n 6 tests",
